@@ -76,7 +76,8 @@ package queue
 //@   ensures result != nil && fresh(result) && result.n == 1 && lqInv(result, nseq, nidx, 1) && nseq[0].Value == t
 
 //@ func (*queue.LQueue).Enqueue
-//@   property C05 C01 C02
+//@   property C05 C01 C02 C09
+//@   refines [C09] (trie.Queuer).Enqueue with qn(self) := self.n; qe(self) := lambda i int :: nseq[i].Value @old lambda i int :: seq[i].Value
 //@   lock l.mu : none
 //@   ghost-param seq map[int]*list.DoubleNode
 //@   ghost-param idx map[*list.DoubleNode]int
@@ -142,7 +143,8 @@ package queue
 //@   ensures result == l.n && result >= 0
 
 //@ func (*queue.LQueue).Clear
-//@   property C05 C01 C02
+//@   property C05 C01 C02 C09
+//@   refines [C09] (trie.Queuer).Clear with qn(self) := self.n; qe(self) := lambda i int :: seq[i].Value
 //@   lock l.mu : none
 //@   ghost-param seq map[int]*list.DoubleNode
 //@   ghost-param idx map[*list.DoubleNode]int
